@@ -8,6 +8,21 @@ VERIF = os.path.dirname(os.path.dirname(os.path.abspath(__file__)))
 
 # property -> (technique, clause decided, trusted base / what is not decided, DESIGN ref)
 CLAIMS = {
+    "C14": ("type-directed loop classification (address-dependent containers from canonical template arguments) and "
+            "pointer-comparison lint over every comparator handed to std::sort and the ordering helpers it delegates to",
+            "loops over pointer-keyed / interned_string-keyed unordered containers and pointer-ordered sets never "
+            "emit and only fill associative containers or vectors that are sorted afterwards; no sort comparator "
+            "orders by address",
+            "loop bodies calling arbitrary side-effecting functions are not classified; uninitialised memory and "
+            "elfutils nondeterminism are not decided",
+            "§3 R-UNORD, R-PTRCMP; §4 C14"),
+    "C31": ("whole-program call-graph reachability (CHA) from every task perform() / completion notifier + effect "
+            "classification of every reference to a mutable variable of static storage duration, of writes to the "
+            "shared options object and of MT-unsafe libc calls",
+            "code reachable from a worker task modifies no mutable static (three listed exceptions), never writes the "
+            "shared options object, and calls only triaged MT-unsafe libc functions",
+            "races through heap objects shared by two tasks; statics inside libstdc++/libxml2/elfutils",
+            "§3 R-SHARED, R-LIBCMT; §4 C31"),
     "C06": ("whole-program call-graph reachability (CHA) from equality / hashing / canonicalisation / diffing entry "
             "points + use classification of every source-location value inside the closure",
             "in everything reachable from equals, operator==, the hash functors, canonicalisation and compute_diff a "
